@@ -18,6 +18,9 @@ LIB_SIGS = {
     'rvs': ['size'], 'percentile': ['a', 'q'], 'quantile': ['a', 'q'], 'nanpercentile': ['a', 'q'], 'ppf': ['q'], 'cdf': ['x'], 'sf': ['x'],
     'comb': ['N', 'k'], 'combinations': ['iterable', 'r'], 'date_range': ['start', 'end'], 'isin': ['values'], 'Timestamp': ['ts_input'],
     'deepcopy': ['x'], 'groupby': ['by'], 'insert': ['loc', 'column', 'value'], 'std': ['a'], 'var': ['a'],
+    'between': ['left', 'right'], 'diff': ['a'], 'sqrt': ['x'], 'log10': ['x'], 'floor': ['x'], 'heappush': ['heap', 'item'], 'heappushpop': ['heap', 'item'],
+    'nlargest': ['n', 'iterable'], 'round': ['number', 'ndigits'], 'pearsonr': ['x', 'y'], 'symmetric_difference': ['other'], 'isdisjoint': ['other'],
+    'issubset': ['other'], 'issuperset': ['other'], 'sort_values': ['by'], 'corrcoef': ['x', 'y'],
 }
 
 
